@@ -54,7 +54,7 @@ try:
                     if l.startswith('#'):
                         title = l.strip(); break
             json.dump(dict(property=pid, variant=m,
-                           source="independent sub-agent (second wave) given only the property text, the one-line titles of the two earlier changes (to avoid repeating them) and a scratch worktree of /repo (HEAD %s)" % head,
+                           source="independent sub-agent (%s) given only the property text, the one-line titles of the earlier changes for that property (to avoid repeating them) and a scratch worktree of /repo (HEAD %s)" % (os.environ.get('SEED_WAVE', 'later wave'), head),
                            needs_to_manifest=title or ('# %s' % m), demo_package_dir=pkgdir,
                            confirmed=dict(how="tools/intake.py in a scratch worktree outside /repo and /verif: demo passes on the clean tree; git apply; go build ./...; go test -vet=off -count=1 ./... (existing suite) passes; demo fails with the change",
                                           result="clean=%d build=%d suite=%d mutated=%d" % (clean.returncode, build.returncode, suite.returncode, mut.returncode))),
